@@ -47,7 +47,12 @@ TABLE_OBLIGATIONS = [
     "Ural.Props.C03.escape_recognisers_agree",
 ]
 RULE = (
-    "A case is a collision class: a base URL (structured components over the quantifier's token "
+    "A case is a collision class: [stream 'inv', harness/c03_invisible.py, right after the corpus] a control / "
+    "white-space / invisible character — every range boundary of the REGENERATED classes of CONTROL_CHARS_RE, str.strip, "
+    "NON_PRINTABLE_RE and of urlsplit's own removals, a fixed list of Unicode format characters, the ASCII characters a "
+    "component reserves — spelled raw / with upper-case / lower-case escapes in 14 shapes (path, query key, value, "
+    "fragment, userinfo, ends of the URL; the shapes of seeded C03-3 and of 5de5f5e); [otherwise] "
+    "a base URL (structured components over the quantifier's token "
     "alphabet, normalize-specific hosts / tails / tracking items) and up to 4 members obtained by "
     "compositions of <= 3 spelling transformations — C02's (scheme/host case, explicit default port, "
     "lower-case hex, escaping of unreserved / non-ASCII characters, raw space vs %20, punycode vs "
@@ -92,9 +97,16 @@ UNPROVED = (
     "union of the hypotheses. NOT proved, explored by the oracle on every run: (b),(c2) on URLs with capital letters "
     "(that normalize_url's steps other than the index test commute with lower-casing), "
     "platform_aware=True (D53: KF-C03-2), URLs with a redirect hint (D29: KF-C03-1), the "
-    "string-level bridging (cleaning + CPython parse/print: evaluated per case by c03_bridge / c03_lower; an "
+    "CPython half of the string-level bridging (that urlsplit gives the printed components back and parses u.lower() into the "
+    "lower-cased components: evaluated per case by c03_bridge / c03_lower; an "
     "unknown scheme with an empty authority, where it used to fail - KF-C03-5 - is fixed: FX-C02-f918741), equality of "
-    "the printed strings vs equality of the components."
+    "the printed strings vs equality of the components. The CLEANING half of the string level IS proved "
+    "(Props/C03Control.lean, all input strings): from the table obligations control_class_stays_escaped / "
+    "strip_class_stays_escaped (every code point CONTROL_CHARS_RE deletes / str.strip removes is kept escaped by the safe "
+    "unquoters; regenerated classes, decided on the ranges, lifted to all code points) the canonical form holds no such "
+    "character outside the hostname (canonical_form_has_no_cleaned_character, both modes) and the cleaning pass is the identity on "
+    "it (clean_canonical: full strength since /repo 16f182c; normalize_cleaning_canonical_partial adds upper_quoted, unquoted mode, "
+    "for a default protocol made of letters and no '%' in the hostname)."
 )
 
 # ---------------------------------------------------------------------------------------
